@@ -294,6 +294,9 @@ def compare_doc(target: str, spec: Spec, item: Dict[str, Any], py: Dict[str, Any
         cause = tag
         if py.get("foreign"):
             cause = f"{tag}:python-raises-{py['foreign']}"
+        elif pok and tag.startswith("modelType-added"):
+            # the reference ignores a "modelType" property on a class that is serialised without one
+            cause = "modelType-on-class-without-model-type"
         elif not pok and str(py.get("msg", "")).startswith("Unexpected property"):
             # whatever the mutation was, the reference refused the document because of a property it does not know
             cause = "unexpected-property"
@@ -320,9 +323,20 @@ def compare_doc(target: str, spec: Spec, item: Dict[str, Any], py: Dict[str, Any
         extra = list((ca - ce).elements())
         for path, desc in missing[:2]:
             body = bodies.get(desc, "?")
-            if any(dd == desc for _, dd in extra):
-                kind = "wrong-path"
-            elif ca[(path, desc)] > 0:
+            others = [pp for pp, dd in extra if dd == desc]
+            if others:
+                # the invariant is reported, but elsewhere: name how the path differs
+                if any(len(pp) < len(path) and tuple(path[:len(pp)]) == tuple(pp) for pp in others):
+                    fails.append((f"{target}:errors-differ:wrong-path:truncated",
+                                  f"desc={desc!r} expected path={path!r} got={others!r}\n{head}"))
+                elif any(sorted(map(str, pp)) == sorted(map(str, path)) for pp in others):
+                    fails.append((f"{target}:errors-differ:wrong-path:segments-reordered",
+                                  f"desc={desc!r} expected path={path!r} got={others!r}\n{head}"))
+                else:
+                    fails.append((f"{target}:errors-differ:wrong-path:other",
+                                  f"desc={desc!r} expected path={path!r} got={others!r}\n{head}"))
+                continue
+            if ca[(path, desc)] > 0:
                 kind = "fewer-duplicates"
             else:
                 kind = "missing-error"
